@@ -70,16 +70,16 @@ type pinRec struct {
 type runRec struct {
 	attempts  [nPeers]int
 	cur       [nPeers]int
-	failed    [nPeers]bool                // an injected failure hit this peer
-	delivered [nPeers]map[cid.Cid][]byte  // blocks stored by the peer's daemon
-	attempted [nPeers]map[cid.Cid]bool    // blocks sent to the peer (stored or failed; rpc-denied calls carry no cid)
-	sentTo    [nPeers]bool                // at least one BlockPut was addressed to the peer
-	order     []cid.Cid                   // first-delivery order of distinct blocks
-	sizes     map[cid.Cid]int             // raw size of each block
-	batches   []batch                     // fan-outs (meaningful in fault-free runs)
-	pins      []pinRec                    // Cluster.Pin calls, in order
-	allocs    [][]int                     // answers of Cluster.BlockAllocate, in order
-	allocOpts []api.PinOptions            // options BlockAllocate was asked with
+	failed    [nPeers]bool               // an injected failure hit this peer
+	delivered [nPeers]map[cid.Cid][]byte // blocks stored by the peer's daemon
+	attempted [nPeers]map[cid.Cid]bool   // blocks sent to the peer (stored or failed; rpc-denied calls carry no cid)
+	sentTo    [nPeers]bool               // at least one BlockPut was addressed to the peer
+	order     []cid.Cid                  // first-delivery order of distinct blocks
+	sizes     map[cid.Cid]int            // raw size of each block
+	batches   []batch                    // fan-outs (meaningful in fault-free runs)
+	pins      []pinRec                   // Cluster.Pin calls, in order
+	allocs    [][]int                    // answers of Cluster.BlockAllocate, in order
+	allocOpts []api.PinOptions           // options BlockAllocate was asked with
 	seq       int
 	injected  int // number of failures actually injected
 
@@ -118,6 +118,8 @@ type world struct {
 	mn     mocknet.Mocknet
 	cancel context.CancelFunc
 	run    *runRec
+
+	confirmed map[string]bool // violation keys already re-executed 5x by this worker
 }
 
 type ipfsSvc struct {
